@@ -29,13 +29,13 @@ REPO = "/repo"
 PY = "/venv/bin/python"
 
 FILES = {
-    "driver/accessor.py": ["C02", "C03", "C14", "C11", "C13"],
+    "driver/accessor.py": ["C02", "C03", "C14", "C18", "C11", "C13"],
     "driver/observable.py": ["C03"],
-    "driver/spastruct.py": ["C01", "C03", "C05", "C20"],
-    "driver/async_spastruct.py": ["C01", "C03", "C05"],
+    "driver/spastruct.py": ["C01", "C03", "C05", "C20", "C12", "C11"],
+    "driver/async_spastruct.py": ["C01", "C03", "C05", "C12", "C11", "C13"],
     "driver/async_peekablequeue.py": ["C07", "C06"],
-    "driver/async_udp_protocol.py": ["C06", "C16", "C10", "C07"],
-    "driver/udp_protocol_handler.py": ["C06", "C07", "C20"],
+    "driver/async_udp_protocol.py": ["C06", "C16", "C10", "C07", "C09", "C05"],
+    "driver/udp_protocol_handler.py": ["C06", "C07", "C20", "C09", "C05"],
     "driver/udp_socket.py": ["C20", "C16", "C15"],
     "driver/protocol/packet.py": ["C04", "C07", "C01"],
     "driver/protocol/hello.py": ["C04", "C15"],
@@ -43,23 +43,23 @@ FILES = {
     "driver/protocol/version.py": ["C04"],
     "driver/protocol/getchannel.py": ["C04"],
     "driver/protocol/configfile.py": ["C04", "C18"],
-    "driver/protocol/statusblock.py": ["C04", "C01"],
+    "driver/protocol/statusblock.py": ["C04", "C01", "C05"],
     "driver/protocol/packcommand.py": ["C04", "C13"],
     "driver/protocol/watercare.py": ["C04", "C13"],
     "driver/protocol/reminders.py": ["C04"],
     "driver/protocol/firmware.py": ["C04"],
     "driver/protocol/rferr.py": ["C04", "C07"],
-    "async_spa.py": ["C05", "C06", "C07", "C09", "C10", "C13", "C01"],
+    "async_spa.py": ["C09", "C05", "C06", "C07", "C10", "C13", "C08", "C01"],
     "async_spa_manager.py": ["C08", "C09", "C10"],
     "async_locator.py": ["C15", "C10"],
     "async_tasks.py": ["C10", "C17"],
     "locator.py": ["C15"],
-    "spa.py": ["C05", "C13", "C20", "C16"],
+    "spa.py": ["C20", "C05", "C13", "C16", "C01"],
     "config.py": ["C17", "C06"],
-    "automation/async_facade.py": ["C11", "C12", "C13", "C17"],
+    "automation/async_facade.py": ["C11", "C12", "C13", "C17", "C10", "C09"],
     "automation/facade.py": ["C11", "C12", "C13"],
     "automation/heater.py": ["C14", "C11", "C13"],
-    "automation/pump.py": ["C13", "C11", "C12"],
+    "automation/pump.py": ["C13", "C11", "C12", "C17"],
     "automation/blower.py": ["C13", "C11"],
     "automation/light.py": ["C13", "C11"],
     "automation/switch.py": ["C13", "C11"],
@@ -271,10 +271,12 @@ def mutate(tree, site):
     return line, func, desc, ast.unparse(t)
 
 
-def gen(per_file, seed):
+def gen(per_file, seed, only_files=None, tag=""):
     os.makedirs(OUTDIR, exist_ok=True)
     out = []
     for rel, checks in FILES.items():
+        if only_files and not any(x in rel for x in only_files):
+            continue
         p = os.path.join(REPO, "src", "geckolib", rel)
         if not os.path.exists(p):
             print("missing", rel)
@@ -287,7 +289,7 @@ def gen(per_file, seed):
         sites = list(v.sites)
         r.shuffle(sites)
         # weight: at most per_file, at least 3, about one per 12 source lines
-        n = max(3, min(per_file, len(src.splitlines()) // 12))
+        n = max(3, min(per_file, len(src.splitlines()) // (12 if not tag else 6)))
         taken, seen = 0, set()
         for site in sites:
             if taken >= n:
@@ -299,10 +301,10 @@ def gen(per_file, seed):
             if (line, desc) in seen or new_src == ast.unparse(tree):
                 continue
             seen.add((line, desc))
-            out.append({"id": f"{rel}:{line}:{site[0]}:{taken}", "file": rel, "line": line, "func": func, "desc": desc, "checks": checks, "source": new_src})
+            out.append({"id": f"{tag}{rel}:{line}:{site[0]}:{taken}", "file": rel, "line": line, "func": func, "desc": desc, "checks": checks, "source": new_src})
             taken += 1
         print(rel, len(v.sites), "sites ->", taken)
-    with open(os.path.join(OUTDIR, "mutants.jsonl"), "w") as f:
+    with open(os.path.join(OUTDIR, f"mutants{tag}.jsonl"), "w") as f:
         for m in out:
             f.write(json.dumps(m) + "\n")
     print(len(out), "mutants")
@@ -344,10 +346,10 @@ def run_one(m, wt, outdir):
         open(target, "w").write(orig)
 
 
-def run(workers, only):
-    ms = [json.loads(l) for l in open(os.path.join(OUTDIR, "mutants.jsonl"))]
+def run(workers, only, tag=""):
+    ms = [json.loads(l) for l in open(os.path.join(OUTDIR, f"mutants{tag}.jsonl"))]
     done = set()
-    rp = os.path.join(OUTDIR, "results.jsonl")
+    rp = os.path.join(OUTDIR, f"results{tag}.jsonl")
     if os.path.exists(rp):
         done = {json.loads(l)["id"] for l in open(rp)}
     todo = [m for m in ms if m["id"] not in done and (only is None or only in m["id"])]
@@ -438,8 +440,8 @@ if __name__ == "__main__":
     a = sys.argv[1:]
     opt = lambda k, d: (a[a.index(k) + 1] if k in a else d)  # noqa
     if a[0] == "gen":
-        gen(int(opt("--per-file", 14)), opt("--seed", "0"))
+        gen(int(opt("--per-file", 14)), opt("--seed", "0"), opt("--files", "").split(",") if opt("--files", "") else None, opt("--tag", ""))
     elif a[0] == "run":
-        run(int(opt("--workers", 3)), opt("--only", None))
+        run(int(opt("--workers", 3)), opt("--only", None), opt("--tag", ""))
     else:
         report()
